@@ -83,6 +83,7 @@ var errNoSuchKey = errors.New("verif vault: no key with that name can do this")
 // a fixed IV, RSA-OAEP-256 with a fixed key pair).
 type vault struct {
 	identity bool
+	scrub    bool // overwrite the plaintext key handed to the wrap callback after wrapping it
 	encName  string
 	decName  string
 	sym      []byte // 32 bytes of symmetric key material
@@ -162,6 +163,11 @@ func (v *vault) WrapFn() enc.WrapKeyFn {
 			return nil, nil, err
 		}
 		v.wfk = bytes.Clone(w)
+		if v.scrub {
+			for i := range plaintextKey {
+				plaintextKey[i] = 0xAA
+			}
+		}
 		return w, nil, nil
 	}
 }
